@@ -161,7 +161,7 @@ func checkC11(r *evid.Run) {
 			cfgs = append(cfgs, "MC_Pipe_cancel_"+s+".cfg", "MC_Pipe_reader_"+s+".cfg", "MC_Pipe_faults3_"+s+".cfg", "MC_Pipe_cancel3_"+s+".cfg")
 		}
 	}
-	cfgs = append(cfgs, "MC_Pipe_live_text.cfg") // liveness under weak fairness: Termination, NoLeak
+	cfgs = append(cfgs, "MC_Pipe_live_text.cfg")                                          // liveness under weak fairness: Termination, NoLeak
 	cfgs = append(cfgs, "MC_Pipe_backpressure_text.cfg", "MC_Pipe_backpressure_walk.cfg") // one worker per stage, four blocks: every stage full, the last block pending
 	if !thorough {
 		cfgs = append(cfgs, "MC_Pipe_cancel_enc.cfg", "MC_Pipe_reader_enc.cfg")
